@@ -278,6 +278,7 @@ func genC04(p *Pkg) (map[string]string, error) {
 		{"ta_defineOwnPropertyIdx", "typedArrayObject", "defineOwnPropertyIdx"},
 		// lazy `prototype` of ordinary functions (FuncLazy.lean)
 		{"fn_addProto", "funcObject", "_addProto"},
+		{"fn_addProtoBeforeNewKey", "funcObject", "_addProtoBeforeNewKey"},
 		{"fn_addPrototype", "funcObject", "addPrototype"},
 		{"fn_getOwnPropStr", "funcObject", "getOwnPropStr"},
 		{"fn_setOwnStr", "funcObject", "setOwnStr"},
